@@ -113,11 +113,12 @@ ALPHABETS = {
     "dir-json": ("dir", "json", ["a", "a.json", "ba"]),
     "dir-short": ("dir", "fa", ["fa", "xfa.fa", "x"]),
     "dir-dotted": ("dir", "fasta", ["a.b", "a", "x.json"]),
+    "dir-inner-dots": ("dir", "fasta", ["a.fasta", "a.v2.fasta", "a.v2.final.fasta"]),
     "sql-plain": ("sql", None, ["a", "ba", "results/a"]),
     "sql-suffix": ("sql", None, ["a.fasta", "a", "results_b"]),
 }
 QUICK_ALPHABETS = ["dir-suffix-of", "dir-sfxtext", "sql-plain"]
-QUICK_SHALLOW = ["dir-plain", "dir-prefix-of", "dir-json", "dir-short", "dir-dotted", "sql-suffix"]
+QUICK_SHALLOW = ["dir-plain", "dir-prefix-of", "dir-json", "dir-short", "dir-dotted", "dir-inner-dots", "sql-suffix"]
 DEEP_ALPHABETS = ("dir-suffix-of", "sql-plain")
 LOG_ID = {"dir": "l.log", "sql": "l"}
 
@@ -157,6 +158,26 @@ def exhaustive_block(tier):
         for seq in itertools.product(alpha, repeat=d):
             cases.append(dict(store=store, suffix=sfx, mode="w", ops=with_payloads(seq), obs_every=True,
                               block="exhaustive:" + name))
+    return cases
+
+
+INNER_DOT_NAMES = ["a.fasta", "a.v2.fasta", "a.v2.final.fasta", "a.b", "a"]
+
+
+def inner_dots_block():
+    """identifiers with inner periods that share their first dotted component, given with the format suffix (and the
+    two short forms a.b / a): every ordered selection of 1..3 of them written as completed records, then the store is
+    re-opened in each mode; after every step the snapshot holds ds.md5(id) (= member.md5), read() and validate() of the
+    live store and of a fresh read-only one.  Runs in both tiers, also when the translator tie is broken."""
+    cases = []
+    for store, sfx in (("dir", "fasta"), ("sql", None)):
+        for r in (1, 2, 3):
+            for sel in itertools.permutations(INNER_DOT_NAMES, r):
+                for final in (None, "r", "w", "a"):
+                    ops = [["w", n, f"d{k}"] for k, n in enumerate(sel)]
+                    if final:
+                        ops.append(["open", final])
+                    cases.append(dict(store=store, suffix=sfx, mode="w", ops=ops, obs_every=True, block="inner-dots"))
     return cases
 
 
@@ -345,7 +366,9 @@ def trigger(pre, mode, store, sfx, op):
         return ("drop-in-readonly" if mode == "r" else
                 "name-completed-and-not-completed" if (store == "dir" and any(y in C for y in N)) else "drop-all")
     lid = lid_of(store, sfx, op[1], kind)
-    if store == "dir" and ("." in lid or "/" in lid):
+    if store == "dir" and ("/" in lid or ("." in lid and lid == op[1])):
+        # an identifier given WITHOUT the format suffix whose name has an inner period: Path.stem cuts it (known finding).
+        # Given WITH the format suffix (a.v2.fasta) the name a.v2 is kept and is judged like any other name.
         return "dotted-id"
     if mode == "r":
         return "drop-in-readonly" if kind == "drop" else kind + "-in-readonly"
@@ -437,6 +460,13 @@ def judge_case(c, res, first_only=True):
                 if best is None or len(sy) < len(best):
                     best = sy
             symptoms = list(best)
+            if not symptoms:
+                # the state is the dictionary's: validate() must then count every member as correct
+                nmem = len(gl["C"]) + len(gl["N"])
+                for tag, snap in (("live", live), ("reopened", fresh)):
+                    v = snap[5] if isinstance(snap, list) and len(snap) == 6 else None
+                    if isinstance(v, list) and len(v) == 4 and (v[1] != 0 or v[2] != 0 or v[0] != nmem):
+                        symptoms.append(f"{tag}:validate.{'incorrect' if v[1] else 'missing' if v[2] else 'count'}")
             if symptoms:
                 trig = trigger(pre, mode, store, sfx, op)
                 key = f"{store}:{trig}"
@@ -562,7 +592,7 @@ def norm_impl(res):
 # ------------------------------------------------------------------ the check
 
 def build_cases(tier, rng, widen=1):
-    cases = list(CORPUS) + exhaustive_block(tier)
+    cases = list(CORPUS) + inner_dots_block() + exhaustive_block(tier)
     nrand = (500 if tier == "quick" else 5000) * widen
     cases += [random_case(rng) for _ in range(nrand)]
     return cases
